@@ -69,6 +69,9 @@ func (cr *checkRun) replay(o *Oblig) replayResult {
 	if o.Replayed {
 		return replayResult{ran: true, failed: o.Status == "refuted", log: o.Model}
 	}
+	if o.Fn == "gf2p16.asm" || (strings.HasPrefix(o.Fn, "gf2p16.") && strings.Contains(o.Fn, "ByteSliceLE")) || strings.Contains(o.Name, "lemma:tables") {
+		return cr.replayAsm(o)
+	}
 	if o.fc == nil || o.fc.fn == nil || o.fc.c == nil {
 		return replayResult{}
 	}
@@ -257,3 +260,96 @@ func (cr *checkRun) replaySource(fc *FnCtx, model map[string]string) (string, bo
 }
 
 var _ = ssa.Function{}
+
+var asmLenRe = regexp.MustCompile(`\(define-fun inlen \(\) \(_ BitVec 64\)\s+#x([0-9a-f]+)\)`)
+
+// replayAsm runs the real kernels (both dispatch paths) against the portable Go kernel on
+// guarded buffers: lengths from the solver's model plus the boundary lengths of the property.
+func (cr *checkRun) replayAsm(o *Oblig) replayResult {
+	lens := []uint64{2, 4, 30, 32, 34, 62, 64, 66, 96, 1000, 65534, 65536, 65538, 131072, 131074}
+	if m := asmLenRe.FindStringSubmatch(o.Model); m != nil {
+		if n, err := strconv.ParseUint(m[1], 16, 64); err == nil && n <= 1<<22 {
+			lens = append([]uint64{n &^ 1}, lens...)
+		}
+	}
+	var ls []string
+	for _, n := range lens {
+		ls = append(ls, fmt.Sprint(n))
+	}
+	src := `//go:build verif
+
+package gf2p16
+
+import (
+	"fmt"
+	"math/rand"
+	"testing"
+)
+
+func TestGocvReplayAsm(t *testing.T) {
+	rng := rand.New(rand.NewSource(1))
+	const guard = 1 << 18
+	for _, n := range []int{` + strings.Join(ls, ", ") + `} {
+		for _, c := range []T{0, 1, 2, 3, 0x100b, 0x8000, 0xfffe, 0xffff, T(rng.Intn(65536))} {
+			for _, ssse3 := range []bool{false, true} {
+				for _, add := range []bool{false, true} {
+					for _, align := range []int{0, 1, 7} {
+						buf := make([]byte, 2*guard+n+8)
+						rng.Read(buf)
+						inb := make([]byte, n+8)
+						rng.Read(inb)
+						in := inb[align : align+n]
+						out := buf[guard+align : guard+align+n]
+						want := append([]byte{}, buf...)
+						wout := want[guard+align : guard+align+n]
+						in0 := append([]byte{}, inb...)
+						if add {
+							mulAndAddByteSliceLEGeneric(c, in, wout)
+							mulAndAddByteSliceLE(c, in, out, ssse3)
+						} else {
+							mulByteSliceLEGeneric(c, in, wout)
+							mulByteSliceLE(c, in, out, ssse3)
+						}
+						for i := range buf {
+							if buf[i] != want[i] {
+								where := "inside out"
+								if i < guard+align || i >= guard+align+n {
+									where = "OUTSIDE the out buffer"
+								}
+								fmt.Printf("GOCV-REPLAY-FAIL kernel differs from c*in at byte %d (%s): len=%d c=%#x ssse3=%v muladd=%v align=%d\n", i-guard-align, where, n, c, ssse3, add, align)
+								t.Fail()
+								return
+							}
+						}
+						for i := range inb {
+							if inb[i] != in0[i] {
+								fmt.Printf("GOCV-REPLAY-FAIL input modified at byte %d: len=%d c=%#x ssse3=%v muladd=%v\n", i-align, n, c, ssse3, add)
+								t.Fail()
+								return
+							}
+						}
+					}
+				}
+			}
+		}
+	}
+	fmt.Printf("GOCV-REPLAY-DONE lengths=%d\n", ` + fmt.Sprint(len(lens)) + `)
+}
+`
+	out, _ := cr.e.runInjectedTest(repoMod+"/gf2p16", "zz_gocv_replay_asm_test.go", src, "TestGocvReplayAsm", 120*time.Second)
+	res := replayResult{ran: true}
+	var keep []string
+	for _, ln := range strings.Split(out, "\n") {
+		if strings.HasPrefix(ln, "GOCV-REPLAY") {
+			keep = append(keep, ln)
+			if strings.HasPrefix(ln, "GOCV-REPLAY-FAIL") {
+				res.failed = true
+			}
+		}
+	}
+	if len(keep) == 0 {
+		keep = append(keep, truncate(out, 3000))
+	}
+	res.log = "differential test of the real kernels (injected with go test -overlay into gf2p16):\n" + src + "\noutput:\n" + strings.Join(keep, "\n")
+	return res
+}
